@@ -17,8 +17,11 @@ Sib3 == <<"valid", "malformed", "nonschema">>
 NoSib == <<>>
 
 AllFiles == {"f1.xsd", "f2.xsd", "f3.xsd", "f4.xsd", "f5.xsd", "f6.xsd"}
+\* SameNs: the third file declares its (differently named) components in the namespace of the second - two reachable
+\* files of one target namespace (a namespace is not a file)
+CONSTANT SameNs
 UriOf == [f \in AllFiles |->
-            CASE f = "f1.xsd" -> "Ualpha" [] f = "f2.xsd" -> "Ubravo" [] f = "f3.xsd" -> "Ucharlie" [] f = "f4.xsd" -> "Udelta"
+            CASE f = "f1.xsd" -> "Ualpha" [] f = "f2.xsd" -> "Ubravo" [] f = "f3.xsd" -> (IF SameNs THEN "Ubravo" ELSE "Ucharlie") [] f = "f4.xsd" -> "Udelta"
               [] f = "f5.xsd" -> "Uecho" [] OTHER -> "Ufoxtrot"]
 TypeOf == [f \in AllFiles |->
             CASE f = "f1.xsd" -> "TypeAlpha" [] f = "f2.xsd" -> "TypeBravo" [] f = "f3.xsd" -> "TypeCharlie" [] f = "f4.xsd" -> "TypeDelta"
